@@ -63,7 +63,7 @@ pub fn gen_case(seed: u64, stream: &str, case: u64, size: SizeClass, single_inst
     };
     let tp = TickParams {
         n_candidates: n_cand,
-        prog: ProgParams { pool, allow_delete_node: true, allow_portal: true, allow_reparent, max_writes: 2 },
+        prog: ProgParams { pool, allow_delete_node: true, allow_portal: true, allow_reparent, max_writes: 2, ports: true },
         use_sys_slot: true,
     };
     let programs = gen::gen_candidates(&mut rng, &graph, &tp);
@@ -235,6 +235,175 @@ fn one_case(rep: &mut Report, args: &Args, stream: &str, case: u64, size: SizeCl
     prog::uninstall(&c.programs);
 }
 
+/// Histories of several transactions on ONE engine: every tick must still be a
+/// function of its own pre-state and candidate set. Variants interleave aborted
+/// transactions (whose candidates must leave no trace) and shuffle/duplicate
+/// arrivals; scheduler state that survives a transaction boundary shows up as a
+/// receipt/model mismatch at a later tick or as a variant/canonical difference.
+fn seq_case(rep: &mut Report, args: &Args, case: u64) {
+    let stream = "C01/seq";
+    let c = match gen_case(args.seed, stream, case, SizeClass::Small, false, true) {
+        Ok(c) => c,
+        Err(e) => {
+            rep.inconclusive(&format!("generator: {e}"));
+            return;
+        }
+    };
+    let replay = json!({"seed": args.seed, "stream": stream, "case": case, "size": "Small"});
+    let mut rng = Rng::for_case(args.seed, "C01/seq/hist", case);
+    let n_ticks = rng.range_usize(2, 4);
+    // history generated against the MODEL's successive post-states
+    let mut states: Vec<AState> = vec![c.graph.state.clone()];
+    let mut ticks: Vec<Vec<Program>> = Vec::new();
+    let mut plans: Vec<tick::RefPlan> = Vec::new();
+    for t in 0..n_ticks {
+        let st = states[t].clone();
+        let descent = tick::descent_of(&st);
+        let programs = if t == 0 {
+            c.programs.clone()
+        } else {
+            let g = GenGraph { state: st.clone(), root: c.graph.root, descent: descent.clone() };
+            let tp = TickParams {
+                n_candidates: rng.range_usize(2, 12),
+                prog: ProgParams { pool: rng.range_usize(2, 6), ..ProgParams::default() },
+                use_sys_slot: true,
+            };
+            gen::gen_candidates(&mut rng, &g, &tp)
+        };
+        let present = vec![true; programs.len()];
+        let plan = tick::ref_plan(&programs, &present, &descent);
+        match tick::model_post(&st, &programs, &plan) {
+            Ok(post) => {
+                states.push(post);
+                ticks.push(programs);
+                plans.push(plan);
+            }
+            Err(_) => break,
+        }
+    }
+    if ticks.len() < 2 {
+        return;
+    }
+    rep.eval();
+    let canonical_steps: Vec<tick::SeqStep> = ticks
+        .iter()
+        .map(|p| tick::SeqStep::Tick { programs: p.clone(), enqueue: (0..p.len()).collect() })
+        .collect();
+    let canon = tick::run_sequence(&c.pre, c.graph.root, &canonical_steps, &TickConfig::default());
+    let mut want: Vec<BTreeMap<&'static str, String>> = Vec::new();
+    for (t, r) in canon.iter().enumerate() {
+        match r {
+            TickResult::Committed(cm) => {
+                let mut rp = replay.clone();
+                rp["tick"] = json!(t);
+                if !cm.issues.0.is_empty() {
+                    rep.violation("C01:sequence:post-state-storage-invariant", &format!("tick {t}: {:?}", cm.issues.0), rp.clone());
+                }
+                if let Some((cls, msg)) = tick::receipt_vs_plan(&cm.receipt, &plans[t], &ticks[t]) {
+                    rep.violation(&format!("C01:sequence:receipt-vs-reference:{cls}"),
+                        &format!("tick {t} of a {}-tick history on one engine: {msg}", ticks.len()), rp.clone());
+                }
+                if cm.post != states[t + 1] {
+                    rep.violation("C01:sequence:post-state-vs-model",
+                        &format!("tick {t} of a {}-tick history on one engine: post-state differs from pre + effects(accepted): {} (left=engine, right=model)", ticks.len(), cm.post.first_diff(&states[t + 1])), rp);
+                }
+                want.push(tick::outcome_tuple(cm));
+            }
+            TickResult::Failed { why, .. } => {
+                let mut rp = replay.clone();
+                rp["tick"] = json!(t);
+                rep.violation("C01:sequence:honest-tick-failed",
+                    &format!("tick {t} of a {}-tick history of honest programs on one engine failed to commit: {}", ticks.len(), why.describe()), rp);
+                return;
+            }
+            TickResult::Harness(e) => {
+                rep.inconclusive(&format!("harness: {e}"));
+                return;
+            }
+        }
+    }
+    if want.len() != ticks.len() {
+        return;
+    }
+    rep.count("sequence_histories", 1);
+    rep.count("sequence_ticks_committed", want.len() as u64);
+    let mut noise_candidates = 0u64;
+    let n_variants = 3;
+    for v in 0..n_variants {
+        let mut steps: Vec<tick::SeqStep> = Vec::new();
+        for (t, programs) in ticks.iter().enumerate() {
+            // aborted transactions before this tick: foreign candidates and/or some of the tick's own
+            for _ in 0..rng.range_usize(0, 2) {
+                let g = GenGraph { state: states[t].clone(), root: c.graph.root, descent: tick::descent_of(&states[t]) };
+                let tp = TickParams { n_candidates: rng.range_usize(1, 6), prog: ProgParams { pool: rng.range_usize(2, 6), ..ProgParams::default() }, use_sys_slot: false };
+                let mut noise = gen::gen_candidates(&mut rng, &g, &tp);
+                if rng.chance(1, 2) {
+                    noise.retain(|q| !programs.iter().any(|p| (p.slot, p.warp, p.scope) == (q.slot, q.warp, q.scope)));
+                }
+                for p in programs {
+                    if rng.chance(1, 4) && !noise.iter().any(|q| (p.slot, p.warp, p.scope) == (q.slot, q.warp, q.scope)) {
+                        noise.push(p.clone());
+                    }
+                }
+                let mut enq: Vec<usize> = (0..noise.len()).collect();
+                rng.shuffle(&mut enq);
+                noise_candidates += enq.len() as u64;
+                steps.push(tick::SeqStep::Abort { programs: noise, enqueue: enq });
+            }
+            let mut enq: Vec<usize> = Vec::new();
+            for i in 0..programs.len() {
+                let copies = if rng.chance(1, 3) { 2 } else { 1 };
+                for _ in 0..copies {
+                    enq.push(i);
+                }
+            }
+            rng.shuffle(&mut enq);
+            steps.push(tick::SeqStep::Tick { programs: programs.clone(), enqueue: enq });
+        }
+        let (cfg, dim) = variant_cfg(&mut rng);
+        rep.eval();
+        let got = tick::run_sequence(&c.pre, c.graph.root, &steps, &cfg);
+        let shape: Vec<&str> = steps.iter().map(|s| match s { tick::SeqStep::Abort { .. } => "abort", tick::SeqStep::Tick { .. } => "tick" }).collect();
+        for (t, r) in got.iter().enumerate() {
+            let mut rp = replay.clone();
+            rp["variant"] = json!(v);
+            rp["tick"] = json!(t);
+            rp["steps"] = json!(shape);
+            rp["config"] = json!(format!("{cfg:?}"));
+            match r {
+                TickResult::Committed(cm) => {
+                    let g = tick::outcome_tuple(cm);
+                    if let Some(k) = tick::first_tuple_diff(&want[t], &g) {
+                        rep.violation(&format!("C01:sequence:metamorphic:{dim}+aborted-transactions:{k}"),
+                            &format!("tick {t} of a history on one engine: `{k}` differs between the canonical history and a variant with aborted transactions / shuffled arrivals (steps {shape:?}): canonical={} variant={}", clip(&want[t][k]), clip(&g[k])), rp);
+                        break;
+                    }
+                }
+                TickResult::Failed { why, .. } => {
+                    rep.violation(&format!("C01:sequence:metamorphic:{dim}+aborted-transactions:variant-failed"),
+                        &format!("tick {t}: canonical history committed but the variant (steps {shape:?}) failed: {}", why.describe()), rp);
+                    break;
+                }
+                TickResult::Harness(e) => {
+                    rep.inconclusive(&format!("harness: {e}"));
+                    break;
+                }
+            }
+        }
+        if got.len() != ticks.len() && !got.iter().any(|r| !matches!(r, TickResult::Committed(_))) {
+            rep.inconclusive("sequence variant returned fewer ticks than the canonical history");
+        }
+    }
+    rep.count("aborted_candidates_enqueued", noise_candidates);
+    let ports: usize = ticks.iter().flatten().map(|p| p.footprint.b_in.iter().count() + p.footprint.b_out.iter().count()).sum();
+    rep.count("sequence_port_claims", ports as u64);
+    if noise_candidates > 0 {
+        let mut bytes = c.graph.state.canonical_bytes();
+        bytes.extend_from_slice(format!("seq{:?}", ticks.iter().map(|t| t.iter().map(|p| (&p.ops, p.slot, p.scope)).collect::<Vec<_>>()).collect::<Vec<_>>()).as_bytes());
+        rep.nontrivial(&bytes);
+    }
+}
+
 fn clip(s: &str) -> String {
     if s.len() > 300 { format!("{}…", &s[..300]) } else { s.to_owned() }
 }
@@ -305,7 +474,7 @@ pub fn replay(args: &Args, path: &std::path::Path, mut rep: Report) -> i32 {
     let mut a2 = args.clone();
     a2.seed = seed;
     println!("replaying {stream} case {case} seed {seed} size {size:?}");
-    if stream == "C01/exh" { exhaustive_small(&mut rep, &a2, case) } else { one_case(&mut rep, &a2, &stream, case, size, 8) }
+    if stream == "C01/seq" { seq_case(&mut rep, &a2, case) } else if stream == "C01/exh" { exhaustive_small(&mut rep, &a2, case) } else { one_case(&mut rep, &a2, &stream, case, size, 8) }
     if rep.violations() > 0 { 1 } else { println!("replay: no divergence"); 0 }
 }
 
@@ -327,7 +496,7 @@ pub fn run(args: &Args) -> i32 {
     let n_large = args.by_tier(2u64, 80) / div;
     let n_exh = args.by_tier(6u64, 200) / div;
     let variants = args.by_tier(6usize, 8);
-    let b = budget.slice(0.45);
+    let b = budget.slice(0.35);
     run_shards(&mut rep, jobs, jobs, |shard, rep| {
         let mut case = shard as u64;
         while case < n_small && !b.expired() {
@@ -351,7 +520,16 @@ pub fn run(args: &Args) -> i32 {
             case += jobs as u64;
         }
     });
-    let b = budget.slice(0.25);
+    let n_seq = args.by_tier(240u64, 12_000) / div;
+    let b = budget.slice(0.2);
+    run_shards(&mut rep, jobs, jobs, |shard, rep| {
+        let mut case = shard as u64;
+        while case < n_seq && !b.expired() {
+            seq_case(rep, args, case);
+            case += jobs as u64;
+        }
+    });
+    let b = budget.slice(0.2);
     run_shards(&mut rep, jobs, jobs, |shard, rep| {
         let mut case = shard as u64;
         while case < n_thresh + n_large && !b.expired() {
